@@ -9,6 +9,8 @@ CONSTANTS
   IdleLimit = 0
   MaxFaults = 0
   AcceptSurvives = TRUE
+  PipelinedChild = FALSE
+  AsyncDrain = FALSE
 INVARIANTS TypeOK StepOncePerRequestInOrder AckMatches UnknownGetsUnknown AckAfterStep StateIsEffect NoStuckChild
 PROPERTIES LaterChildCompletes
 CHECK_DEADLOCK FALSE
